@@ -2467,7 +2467,7 @@ class Where(Statement):
         i = line.index(")")
         self.expr = self.item.apply_map(line[1:i].strip())
         line = line[i + 1 :].lstrip()
-        newitem = self.item.copy(line)
+        newitem = self.item.copy(line, apply_map=True)
         # The label belongs to the WHERE statement, not to its assignment.
         newitem.label = None
         cls = Assignment
